@@ -32,6 +32,8 @@ SEEDS = [
     ('predicate', '{ q in {a, b[c], @A.d} and len(e) > f }'),
     ('condition', 'max({x, y, 3, 4}) < len(ws) + @A.n'),
     ('condition', 'x in [0 to INF] or @A.v in ![-INF to 3] or zs[i] in [1 to 5]!'),
+    ('condition', 'forall x in {@a, 1}: (@x = b or str(@x) = c)'),
+    ('condition', 'exists y in @A.zs: (@y = w and @y in {v, 2})'),
     ('expression', 'not (q in {1, 2, r}) implies (s in [lo to INF]! and t in xs)'),
     ('property', 'after t as A {a > 1}: (u {b = @A.a} or w) causes z {c = d} within 100 ms'),
     ('property', 'after (p as P or q): no (b1 {x = y} or b2 {y > 0}) within 1 s'),
@@ -239,7 +241,11 @@ def apply(op, o, root, newalias='M'):
                 stack.extend(ast_children(x))
             if not names:
                 return NA
-            res = [o.replace_var_reference(names[0], HplLiteral.number(3))]
+            try:
+                free = sorted(o.external_references())       # a FREE variable if there is one (a bound one cannot be replaced away)
+            except Exception:  # noqa
+                free = []
+            res = [o.replace_var_reference((free or names)[0], HplLiteral.number(3))]
         elif op == 'negate':
             if not ispred:
                 return NA
